@@ -22,7 +22,7 @@ def timedCfg (c : Cfg) (sopt selfCheck stopWdog : Bool) : Dsh.Timed.Cfg :=
   { ct := c.connectTimeout.toNat, ut := c.commandTimeout.toNat, sopt := sopt, selfCheck := selfCheck, stopWdog := stopWdog }
 
 /-- the configuration of the timed system never changes -/
-theorem timed_reach_cfg {v : Dsh.Fan.Variant} {f : Nat} {tc : Dsh.Timed.Cfg} {scripts : List Dsh.Timed.Script}
+theorem timed_reach_cfg {v : Dsh.FanG.Variant} {f : Nat} {tc : Dsh.Timed.Cfg} {scripts : List Dsh.Timed.Script}
     {s : Dsh.Timed.St} (h : Dsh.Timed.Reach v f tc scripts s) : s.cfg = tc := by
   obtain ⟨ls, he⟩ := h
   induction he with
